@@ -94,8 +94,10 @@ impl TimeFilter for ts::TimeSpan {
             if start < end {
                 end
             } else {
-                end.add_hours(24)
-                    .expect("overflow during TimeSpan resolution")
+                // A start pushed after 24:00 by an event offset may require an end after 48:00,
+                // which is truncated as times can't go further than the end of next day.
+                let wrapped_end = end.add_hours(24).unwrap_or(ExtendedTime::MIDNIGHT_48);
+                std::cmp::max(start, wrapped_end)
             }
         };
 
